@@ -6,7 +6,11 @@ import re
 import vlib
 
 
-def _self_test(chk, drv, rows):
+def _flag_env(flag_eras):
+    return {"C28_FLAG_ERAS": ",".join(flag_eras)}
+
+
+def _self_test(chk, drv, rows, flag_eras):
     """Binding self-test: flip the spec verdict of one accepted and one rejected
     case and require the replay to report both (guards against a vacuous
     replay, e.g. signatures over the wrong message rejecting everything)."""
@@ -16,29 +20,41 @@ def _self_test(chk, drv, rows):
                 return dict(r)
         raise vlib.MachineryError("self-test: reference case not in the TLC output")
     acc = find(lambda r: r["accept"] and not r["silent"] and r["ins"] == [["key", 1]] and not r["coll"]
-               and not r["req"] and r["vw"] == [[1, True]] and not r["bw"])
+               and not r["req"] and r["vw"] == [[1, True]] and not r["bw"] and not r["p2"])
     rej = find(lambda r: not r["accept"] and r["ins"] == [["byron", 2]] and not r["coll"] and not r["req"]
-               and not r["vw"] and r["bw"] == [[2, 1, True]])
-    acc["accept"], acc["why"] = False, ["input"]
-    rej["accept"], rej["why"] = True, []
+               and not r["vw"] and r["bw"] == [[2, 1, True]] and not r["p2"])
+    # the same two, flagged is_valid = false (replayed in the eras that have the flag only)
+    ka, kr = _key(acc) + ":p2invalid", _key(rej) + ":p2invalid"
+    facc = find(lambda r: r["p2"] and _key(r) == ka)
+    frej = find(lambda r: r["p2"] and _key(r) == kr)
+    for x in (acc, facc):
+        x["accept"], x["why"] = False, ["input"]
+    for x in (rej, frej):
+        x["accept"], x["why"] = True, []
     d = vlib.scratch("c28-self-")
     p = os.path.join(d, "flipped.ndjson")
-    vlib.write_ndjson(p, [acc, rej])
+    vlib.write_ndjson(p, [acc, rej, facc, frej])
     probe = vlib.Check(chk.pid, chk.tier, chk.seed)
-    vlib.run_driver(probe, drv, [p, "mary,conway"], timeout=120, count=False)
+    vlib.run_driver(probe, drv, [p, "mary,conway,dijkstra"], timeout=120, count=False, env=_flag_env(flag_eras))
     keys = {k for k, _, _ in probe.violations} | {k for _, k, _ in probe.known_hits}
     for _, _, path in probe.violations:
         if path and os.path.exists(path):
             os.remove(path)
     want = set()
-    for era in ("mary", "conway"):
+    for era in ("mary", "conway", "dijkstra"):
         want.add("era=%s:ins=key1:coll=-:req=-:vw=1v:bw=-:code=accept:spec=reject" % era)
         want.add("era=%s:ins=byron2:coll=-:req=-:vw=-:bw=2.1v:code=reject:spec=accept" % era)
+        if era in flag_eras:
+            want.add("era=%s:ins=key1:coll=-:req=-:vw=1v:bw=-:p2invalid:code=accept:spec=reject" % era)
+            want.add("era=%s:ins=byron2:coll=-:req=-:vw=-:bw=2.1v:p2invalid:code=reject:spec=accept" % era)
+    if any(":p2invalid" in k and k.startswith("era=mary:") for k in keys):
+        raise vlib.MachineryError("self-test: a flagged case was replayed in mary, whose transactions have no is_valid flag")
     if not want <= keys:
         raise vlib.MachineryError("self-test: flipped verdicts were not all reported (missing %r)" % sorted(want - keys))
     chk.extra["binding_self_test"] = ("the replay rejected the flipped verdicts of (input key1 witnessed by key1) and "
                                       "(Byron input of key 2 with the bootstrap witness of key 2 under other "
-                                      "chain code / attributes) in mary and conway")
+                                      "chain code / attributes) in mary, conway and dijkstra, and of the same two "
+                                      "flagged is_valid = false in conway (envelope) and dijkstra (block)")
 
 
 def run(chk, replay=None):
@@ -49,7 +65,11 @@ def run(chk, replay=None):
                 "within the bounds of the .cfg, plus an ordered slice (2-3 inputs of mixed lock kinds as a sequence, every order, "
                 "every subset of the owners' witnesses: the driver picks output references that sort in that order), and proves on each the property statement read off Accept, "
                 "monotonicity in witnesses, antitonicity in obligations, one-bad-signature-rejects, owner-needed, "
-                "witness kinds do not mix, script inputs neutral, input order irrelevant. Every case becomes a real transaction of each era "
+                "witness kinds do not mix, script inputs neutral, input order irrelevant, phase-2 flag irrelevant "
+                "(cases with p2 = TRUE are the same transactions flagged is_valid = false: all of them in the thorough tier, "
+                "in the quick tier every obligation with witnesses of one kind at a time; replayed in Alonzo, Babbage, Conway "
+                "with the envelope's flag false and in Dijkstra, whose envelope cannot say so, flagged the way block decoding "
+                "flags the members of invalid_transactions; key suffix :p2invalid). Every case becomes a real transaction of each era "
                 "(pre-Alonzo eras: the cases without collateral / required signers) with real ed25519 keys, real "
                 "Byron addresses (root derived by the driver), invalid signature = one flipped bit / other key / "
                 "other message, judged by the signature entries of the era's UtxoValidationRules. A case = (era, "
@@ -64,13 +84,17 @@ def run(chk, replay=None):
         "key addresses take a seeded shape per owner (enterprise / base key-key / base key-script / pointer); Conway and "
         "Dijkstra cases write their sets with tag 258 in half of the cases; witness order is rotated by the seed",
         "a script-locked input puts no obligation on signature validation (script evaluation is another property)",
+        "witnesses and signatures are a phase-1 check (UTXOW): a transaction flagged is_valid = false is accepted by "
+        "signature validation exactly when the same transaction unflagged is (FlagIrrelevant); the flagged transactions "
+        "carry no redeemers, which the signature rules do not read",
     ]
     cfg = "Witness.cfg" if chk.tier == "quick" else "WitnessThorough.cfg"
     r = vlib.run_tlc("ledger/Witness", cfg=cfg, timeout=240 if chk.tier == "quick" else 900, workers="auto", deadlock=False,
                      heap=None if chk.tier == "quick" else "6g")
     vlib.tlc_must_pass(r, "Witness")
     chk.add_tlc(cfg, r)
-    rows = _rows_of(r)
+    rows, flag_eras = _rows_of(r)
+    chk.extra["flagged_cases_in_the_specification"] = sum(1 for x in rows if x["p2"])
     cases = os.path.join(r.dir, "cases.ndjson")
     vlib.write_ndjson(cases, rows)
     drv = vlib.go_build("c28")
@@ -86,25 +110,27 @@ def run(chk, replay=None):
             d = vlib.scratch("c28-replay-")
             p = os.path.join(d, "one.ndjson")
             vlib.write_ndjson(p, rows)
-            vlib.run_driver(chk, drv, [p, obj.get("era", "")], timeout=120)
+            vlib.run_driver(chk, drv, [p, obj.get("era", "")], timeout=120, env=_flag_env(flag_eras))
             return
-    vlib.run_driver(chk, drv, [cases], timeout=300 if chk.tier == "quick" else 1500)
+    vlib.run_driver(chk, drv, [cases], timeout=300 if chk.tier == "quick" else 1500, env=_flag_env(flag_eras))
     if not chk.violations:
         # (with disagreements on the table the replay is evidently not vacuous,
         # and the reference cases may be the very ones the code gets wrong)
-        _self_test(chk, drv, rows)
+        _self_test(chk, drv, rows, flag_eras)
     # exhaustive over the model's finite case space; the bounds are in the .cfg
     chk.exhaustive = False
 
 
 _ROW = re.compile(r'^<<"ROW", (".*")>>\s*$')
 _NUM = re.compile(r'^<<"NUMCASES", (\d+)>>\s*$')
+_NUMF = re.compile(r'^<<"NUMFLAGGED", (\d+)>>\s*$')
+_FE = re.compile(r'^<<"FLAGERAS", (".*")>>\s*$')
 
 
 def _rows_of(r):
     """The cases TLC printed (one <<"ROW", json>> line per complete case), in a
     canonical order (TLC's workers print in any order)."""
-    rows, num = {}, None
+    rows, num, numf, flag_eras = {}, None, None, None
     for l in r.out.splitlines():
         m = _ROW.match(l)
         if m:
@@ -114,9 +140,19 @@ def _rows_of(r):
         m = _NUM.match(l)
         if m:
             num = int(m.group(1))
+        m = _NUMF.match(l)
+        if m:
+            numf = int(m.group(1))
+        m = _FE.match(l)
+        if m:
+            flag_eras = sorted(json.loads(json.loads(m.group(1))))
     if num is None or len(rows) != num:
         raise vlib.MachineryError("TLC printed %d distinct cases, the specification has %r" % (len(rows), num))
-    return [rows[k] for k in sorted(rows)]
+    flagged = sum(1 for x in rows.values() if x["p2"])
+    if not flag_eras or numf is None or flagged != numf or flagged == 0:
+        raise vlib.MachineryError("TLC printed %d flagged cases for the eras %r, the specification has %r"
+                                  % (flagged, flag_eras, numf))
+    return [rows[k] for k in sorted(rows)], flag_eras
 
 
 def _key(r):
@@ -132,4 +168,5 @@ def _key(r):
     req = [str(k) for k in sorted(r["req"])]
     vw = ["%d%s" % (w[0], "v" if w[1] else "x") for w in sorted(r["vw"], key=lambda w: (w[0], not w[1]))]
     bw = ["%d.%d%s" % (w[0], w[1], "v" if w[2] else "x") for w in sorted(r["bw"], key=lambda w: (w[0], w[1], not w[2]))]
-    return "ins=%s:coll=%s:req=%s:vw=%s:bw=%s" % (j(ins), j(coll), j(req), j(vw), j(bw))
+    return "ins=%s:coll=%s:req=%s:vw=%s:bw=%s%s" % (j(ins), j(coll), j(req), j(vw), j(bw),
+                                                    ":p2invalid" if r.get("p2") else "")
